@@ -630,3 +630,58 @@ silent("C15", "explicit form accumulates the lower terms first",
 silent("C15", "matrix loop written with explicit Bell orders",
        ("sub", "ode.py", "    for i in range(0, order):\n        for j in range(0, i + 1):\n            deriv_transf[i, j] = float(bell(i + 1, j + 1, derivs_at_pt))\n",
         "    for n_ in range(1, order + 1):\n        for k_ in range(1, n_ + 1):\n            deriv_transf[n_ - 1, k_ - 1] = float(bell(n_, k_, derivs_at_pt))\n"))
+
+# ------------------------------------------------------------------------------------------ C16
+fire("C16", "reintroduce: every atom's Laplacian closure calls the function of the last atom", "P4.molecular-assembly/poisson.interpolate_laplacian/segment",
+     ("sub", "poisson.py", "lambda points, cut_off, atom_grid=atom_grid, func=interpolate_laplacian_atom_grid: func(\n", "lambda points, cut_off, atom_grid=atom_grid: interpolate_laplacian_atom_grid(\n"))
+fire("C16", "bvp right-hand side forgets the factor r", "P1.radial-equation/poisson._solve_poisson_bvp_atomgrid",
+     ("sub", "poisson.py", "                return radial_components[i_spline](r) * -4 * np.pi * r\n", "                return radial_components[i_spline](r) * -4 * np.pi\n"))
+fire("C16", "bvp reconstruction forgets the division by r", "P1.radial-equation/poisson._solve_poisson_bvp_atomgrid",
+     ("sub", "poisson.py", "r_values = np.array([spline(r_pts) / r_pts for spline in splines])", "r_values = np.array([spline(r_pts) for spline in splines])"))
+fire("C16", "ivp first-derivative coefficient 1/r", "P1.radial-equation/poisson._solve_poisson_ivp_atomgrid",
+     ("sub", "poisson.py", "                return 2.0 / r\n", "                return 1.0 / r\n"))
+fire("C16", "centrifugal term l(l-1)", "P1.radial-equation/poisson._solve_poisson_ivp_atomgrid",
+     ("sub", "poisson.py", "                a = -l_deg * (l_deg + 1) / r**2\n                return a\n", "                a = -l_deg * (l_deg - 1) / r**2\n                return a\n"))
+fire("C16", "right-hand side with the factor 4 pi of the wrong sign", "P1.radial-equation/poisson._solve_poisson_ivp_atomgrid",
+     ("sub", "poisson.py", "                return radial_components[i_spline](r) * -4 * np.pi\n", "                return radial_components[i_spline](r) * 4 * np.pi\n"))
+fire("C16", "spline counter not advanced", "P1.radial-equation/poisson._solve_poisson_bvp_atomgrid",
+     ("sub", "poisson.py", "            u_lm = solve_ode_bvp(rad_points, f_x, coeffs, bd_cond, transform, **ode_params)\n\n            i_spline += 1\n",
+      "            u_lm = solve_ode_bvp(rad_points, f_x, coeffs, bd_cond, transform, **ode_params)\n\n"))
+fire("C16", "ivp initial slope with the wrong sign", "P2.monopole-data/poisson._solve_poisson_ivp_atomgrid/monopole",
+     ("sub", "poisson.py", "ivp = [boundary / r_max, -boundary / r_max**2.0]", "ivp = [boundary / r_max, boundary / r_max**2.0]"))
+fire("C16", "bvp: every component gets the monopole boundary", "P2.monopole-data/poisson._solve_poisson_bvp_atomgrid/higher-components",
+     ("sub", "poisson.py", "            if l_deg == 0 and m_ord == 0:\n                bd_cond = [(0, 0, 0), (1, 0, boundary)]", "            if m_ord == 0:\n                bd_cond = [(0, 0, 0), (1, 0, boundary)]"))
+fire("C16", "bvp: monopole boundary is the bare integral", "P2.monopole-data/poisson._solve_poisson_bvp_atomgrid/monopole",
+     ("sub", "poisson.py", "        boundary = atomgrid.integrate(func_vals) / sph_o_l[0, 0]\n\n    # Check if the domain", "        boundary = atomgrid.integrate(func_vals)\n\n    # Check if the domain"))
+fire("C16", "ivp loops one degree short", "P3.one-ode-per-harmonic/poisson._solve_poisson_ivp_atomgrid",
+     ("sub", "poisson.py", "    for l_deg in range(0, atomgrid.l_max // 2 + 1):\n        for m_ord in [x for x in range(0, l_deg + 1)] + [-x for x in range(-l_deg, 0)]:\n\n            def f_x(r, i_spline=i_spline):\n                return radial_components[i_spline](r) * -4 * np.pi\n",
+      "    for l_deg in range(0, atomgrid.l_max // 2):\n        for m_ord in [x for x in range(0, l_deg + 1)] + [-x for x in range(-l_deg, 0)]:\n\n            def f_x(r, i_spline=i_spline):\n                return radial_components[i_spline](r) * -4 * np.pi\n"))
+fire("C16", "molecular helper forgets the atom-in-molecule weights", "P4.molecular-assembly/poisson._interpolate_molgrid_helper/segment",
+     ("sub", "poisson.py", "            interpolate_callable(atom_grid, func_vals_atom[start_index:final_index])\n", "            interpolate_callable(atom_grid, func_vals[start_index:final_index])\n"))
+fire("C16", "molecular sum drops the last atom", "P4.molecular-assembly/poisson._interpolate_molgrid_helper/sum",
+     ("sub", "poisson.py", "        output = interpolate_funcs[0](points)\n        for interpolate in interpolate_funcs[1:]:", "        output = interpolate_funcs[0](points)\n        for interpolate in interpolate_funcs[1:-1]:"))
+fire("C16", "Laplacian: first-derivative term with 1/r", "P5.laplacian-per-component/poisson.interpolate_laplacian",
+     ("sub", "poisson.py", "                second_component *= 2.0 / r_pts\n", "                second_component *= 1.0 / r_pts\n"))
+fire("C16", "Laplacian: angular eigenvalue l^2", "P5.laplacian-per-component/poisson.interpolate_laplacian",
+     ("sub", "poisson.py", "[[x * (x + 1)] * (2 * x + 1) for x in", "[[x * x] * (2 * x + 1) for x in"))
+fire("C16", "wrapper pins include_origin", "P6.options-forwarded/poisson.solve_poisson_bvp/include_origin",
+     ("sub", "poisson.py", "            atom_grid, func_vals, transform, boundary, include_origin, remove_large_pts, ode_params\n", "            atom_grid, func_vals, transform, boundary, True, remove_large_pts, ode_params\n"))
+silent("C16", "right-hand-side closure reads the loop counter directly (it is consumed inside the iteration)",
+       ("sub", "poisson.py", "            def f_x(r, i_spline=i_spline):\n                return radial_components[i_spline](r) * -4 * np.pi * r\n", "            def f_x(r):\n                return radial_components[i_spline](r) * -4 * np.pi * r\n"))
+silent("C16", "reconstruction multiplies by the reciprocal radius",
+       ("sub", "poisson.py", "r_values = np.array([spline(r_pts) / r_pts for spline in splines])", "r_values = np.array([spline(r_pts) * (1.0 / r_pts) for spline in splines])"))
+silent("C16", "centrifugal coefficient respelled",
+       ("sub", "poisson.py", "                a = -l_deg * (l_deg + 1) / r**2\n                return a\n", "                return -(l_deg**2 + l_deg) / (r * r)\n"))
+silent("C16", "molecular helper iterates over index pairs",
+       ("sub", "poisson.py", "    for i in range(len(molgrid.atcoords)):\n        # Get the atomic grid\n        start_index = molgrid.indices[i]\n        final_index = molgrid.indices[i + 1]\n        atom_grid = molgrid[i]\n\n        # Add the interpolation",
+        "    for i, (start_index, final_index) in enumerate(zip(molgrid.indices[:-1], molgrid.indices[1:])):\n        atom_grid = molgrid[i]\n\n        # Add the interpolation"))
+fire("C16", "robust: subtracted primitives lose their normalisation exponent", "P7.robust-recombination/robust_poisson.solve_poisson_robust/subtracted-density",
+     ("sub", "robust_poisson.py", "        prefactor = c * (alpha / np.pi) ** 1.5\n", "        prefactor = c * (alpha / np.pi) ** 0.5\n"))
+fire("C16", "robust: core potential of unnormalised primitives added back", "P7.robust-recombination/robust_poisson.solve_poisson_robust/core-potential",
+     ("sub", "robust_poisson.py", "                alphas_s=alphas_s,\n                normalized=True,\n", "                alphas_s=alphas_s,\n                normalized=False,\n"))
+fire("C16", "robust: bonding potential dropped from the sum", "P7.robust-recombination/robust_poisson.solve_poisson_robust/sum",
+     ("sub", "robust_poisson.py", "        return v_core + v_bonding + v_residual\n", "        return v_core + v_residual\n"))
+fire("C16", "robust: core potential centred on the first atom only", "P7.robust-recombination/robust_poisson.solve_poisson_robust/core-potential",
+     ("sub", "robust_poisson.py", "            centers_rep = np.tile(center, (len(coeffs_s), 1))\n", "            centers_rep = np.tile(atcoords[0], (len(coeffs_s), 1))\n"))
+silent("C16", "robust: sum in another order of the same three parts",
+       ("sub", "robust_poisson.py", "        return v_core + v_bonding + v_residual\n", "        total = v_residual + v_bonding\n        return total + v_core\n"))
